@@ -75,6 +75,7 @@ class Collect(Case):
             return e
         e.K = mk.length("K")
         K = e.K
+        mk.decls.append(("custom", "contexts", lambda ev: [{"has": int(bool(ev(HAS(z3.IntVal(q))))), "sub": [int(bool(ev(SUB(z3.IntVal(q), z3.IntVal(i))))) for i in range(ev(e.n))]} for q in range(ev(K))]))
         # disjoint windows among the contexts that produced a result
         q1, q2, i = z3.Int("q1!dj"), z3.Int("q2!dj"), z3.Int("i!dj")
         mk.assume(z3.ForAll([q1, q2, i], z3.Implies(z3.And(q1 >= 0, q1 < K, q2 >= 0, q2 < K, q1 != q2, HAS(q1), HAS(q2)), z3.Not(z3.And(SUB(q1, i), SUB(q2, i))))))
@@ -271,6 +272,11 @@ class Collect(Case):
         if not state or "results" not in state:
             return out
         res = state["results"]
+        if self.params["how"] == "dict" and isinstance(res, MArr):
+            # dict form: plain flags, UNKNOWN where nothing ran; a masked accumulator must hide nothing
+            rv = res._data.val(i)
+            out["flags"] = alg.and_(alg.not_(res.m(i)), alg.implies(alg.not_(covered(j, i)), alg.eq(rv, U)), flags_ok(j, i, rv))
+            return out
         if isinstance(res, MArr):
             rv, rm = res._data.val(i), res.m(i)
             out["flags"] = alg.and_(alg.iff(rm, alg.not_(covered(j, i))), flags_ok(j, i, rv))
@@ -443,12 +449,250 @@ class Collect(Case):
         return {
             "one_result_per_key": alg.and_(present, alg.eq(a.n, n), len(out) == 1, len(out["s"]) == 1, len(out["s"]["qartod"]) == 1),
             "flags_on_covered_rows": z3.Implies(inr, alg.lift(inv["flags"])),
-            "uncovered_rows_not_evaluated": z3.Implies(z3.And(inr, z3.Not(covered(K, k))), alg.lift(alg.eq(a.val(k), U))),
+            "uncovered_rows_not_evaluated": z3.Implies(z3.And(inr, z3.Not(covered(K, k))), alg.lift(alg.eq((a._data if isinstance(a, MArr) else a).val(k), U))),
         }
 
 
-def cases():
-    return [Collect(how="list", axes="present"), Collect(how="dict", axes="present"), Collect(how="list", axes="absent"), Collect(how="dict", axes="absent")]
+FLG2 = z3.Function("ctx_test_flags", z3.IntSort(), z3.IntSort(), z3.IntSort(), z3.IntSort())  # context q, test t, row i
+TESTS = ("probe_a", "probe_b")
+
+
+class CollectMulti(Case):
+    """Test multiplicity: two contexts (concrete, so the loops run natively) that each carry the results
+    of TWO tests of one stream, over a symbolic number of rows with symbolic disjoint windows and
+    flags.  Every test's collected result must carry its own flags and the source values of the axes on
+    the covered rows (an accumulator shared between tests, or axes attached to one test only, fails).
+    params: how in {'list','dict'}"""
+
+    module = "ioos_qc.results"
+    no_concrete_model = True
+    index_offsets = (0,)
+    default_props = {}
+    props = {"post.each_test_has_its_own_flags": ("C06",), "post.uncovered_rows_not_evaluated": ("C06",), "post.axes_equal_source_on_covered_rows": ("C06",), "post.one_result_per_key": ("C06",), "no-raise": ("C06", "C18")}
+    NCTX = 2
+
+    def __init__(self, **params):
+        Case.__init__(self, **params)
+        self.function = "collect_results_" + params["how"]
+
+    def declare(self, mk):
+        e = Env()
+        e.mode = mk.mode
+        e.n = mk.length("n")
+        if mk.mode != "sym":
+            e.contexts = mk.values["contexts"]
+            e.K = len(e.contexts)
+            return e
+        e.K = self.NCTX
+        mk.decls.append(("custom", "contexts", lambda ev: [{"has": int(bool(ev(HAS(q)))), "sub": [int(bool(ev(SUB(q, z3.IntVal(i))))) for i in range(ev(e.n))]} for q in range(self.NCTX)]))
+        i = z3.Int("i!dj")
+        mk.assume(z3.ForAll([i], z3.Not(z3.And(HAS(0), HAS(1), SUB(0, i), SUB(1, i)))))
+        # Skolem witness of "context 0 does not cover every row" (fresh constant: a definitional axiom), so
+        # that the exclusion of the known-finding region meets the code's own `.all()` at a common index
+        e.w = z3.Int("w!not_all_0")
+        mk.assume(z3.Implies(z3.Not(self._covers_all(e, 0)), z3.And(e.w >= 0, e.w < alg.lift(e.n), z3.Not(SUB(0, e.w)))))
+        return e
+
+    def _covers_all(self, e, q):
+        i = _bv("i")
+        return z3.ForAll([i], z3.Implies(z3.And(i >= 0, i < alg.lift(e.n)), SUB(q, i)))
+
+    def regions(self, e, res=None, k=None):
+        if self.params["how"] != "list":
+            return {}
+        return {"result-after-all-covering-context": z3.And(HAS(0), HAS(1), self._covers_all(e, 0))}
+
+    def concrete_regions(self, values):
+        cs = [c_ for c_ in values["contexts"] if c_["has"]]
+        if self.params["how"] == "list" and len(cs) >= 2 and any(all(c_["sub"]) for c_ in cs[:-1]):
+            return {"result-after-all-covering-context"}
+        return set()
+
+    def canary(self, e, res, k):
+        return None
+
+    def grid(self, tier, rng):
+        import itertools
+
+        for n in (0, 1, 2, 3):
+            subs = list(itertools.product((0, 1), repeat=n))
+            for K in (1, 2):
+                for ws in itertools.product(subs, repeat=K):
+                    for hs in itertools.product((0, 1), repeat=K):
+                        yield {"n": n, "K": K, "contexts": [{"has": h, "sub": list(w)} for h, w in zip(hs, ws)]}
+
+    # ------------------------------------------------------------------ runs
+    def _contexts_sym(self, mod, e):
+        c = cur()
+        n = e.n
+        c.index_seeds.append(e.w)
+        out = []
+        for q in range(self.NCTX):
+            sub = Arr(n, "b", (lambda q: lambda i: (False, SUB(q, alg.lift(i))))(q), None, "subset_indexes")
+            sub.is_input = True
+            sel = lambda fn, kind="f", sub=sub: Selection(Arr(n, kind, lambda i: (False, fn(alg.lift(i)))), sub)  # noqa: E731
+            results = []
+            if c.fork(HAS(q)):
+                for t, name in enumerate(TESTS):
+                    fl = Selection(Arr(n, "u", (lambda q, t: lambda i: (False, FLG2(q, t, alg.lift(i))))(q, t)), sub)
+                    results.append(mod.CallResult(package="qartod", test=name, function=len, results=fl))
+            out.append(mod.ContextResult(stream_id="s", results=results, subset_indexes=sub, data=sel(COLS["data"]), tinp=sel(COLS["tinp"]), zinp=sel(COLS["zinp"]), lat=sel(COLS["lat"]), lon=sel(COLS["lon"])))
+        return out
+
+    def _contexts_real(self, mod, e):
+        import numpy as np
+
+        n = e.n
+        out = []
+        for q, c_ in enumerate(e.contexts):
+            sub = np.array([bool(b) for b in c_["sub"]], dtype=bool)
+            rows = [i for i in range(n) if sub[i]]
+
+            def col(off):
+                a = np.array([i + off for i in rows], dtype="float64")
+                a.flags.writeable = False
+                return a
+
+            results = []
+            if c_["has"]:
+                for t, name in enumerate(TESTS):
+                    results.append(mod.CallResult(package="qartod", test=name, function=len, results=np.array([100 * t + 10 * (q + 1) + i for i in rows], dtype="uint8")))
+            out.append(mod.ContextResult(stream_id="s", results=results, subset_indexes=sub, data=col(0.5), tinp=col(100.0), zinp=col(200.0), lat=col(300.0), lon=col(400.0)))
+        return out
+
+    def call(self, mod, e):
+        fn = getattr(mod, self.function)
+        if e.mode != "sym":
+            if e.mode == "conc":
+                raise NotImplementedError
+            return ("concrete", fn(self._contexts_real(mod, e)))
+        return fn(self._contexts_sym(mod, e))
+
+    # ------------------------------------------------------------------ postconditions
+    def _post_concrete(self, e, out):
+        import numpy as np
+
+        n = e.n
+        cs = e.contexts
+        seen = [0] * n
+        for c_ in cs:
+            if c_["has"]:
+                for i, b in enumerate(c_["sub"]):
+                    seen[i] += b
+        if any(v > 1 for v in seen):
+            return None
+        present = any(c_["has"] for c_ in cs)
+        res = {"one_result_per_key": True, "each_test_has_its_own_flags": True, "uncovered_rows_not_evaluated": True, "axes_equal_source_on_covered_rows": True}
+        if self.params["how"] == "list":
+            res["one_result_per_key"] = sorted(cr.test for cr in out) == (sorted(TESTS) if present else [])
+        else:
+            got = sorted(out["s"]["qartod"]) if present and "s" in out else []
+            res["one_result_per_key"] = got == (sorted(TESTS) if present else [])
+        if not present or not res["one_result_per_key"]:
+            return res
+        for t, name in enumerate(TESTS):
+            exp = {}
+            for q, c_ in enumerate(cs):
+                if c_["has"]:
+                    for i, b in enumerate(c_["sub"]):
+                        if b:
+                            exp[i] = 100 * t + 10 * (q + 1) + i
+            if self.params["how"] == "list":
+                cr = [c_ for c_ in out if c_.test == name][0]
+                r = np.ma.masked_array(cr.results)
+                m = np.ma.getmaskarray(r)
+                if len(r) != n:
+                    res["one_result_per_key"] = False
+                    continue
+                for i in range(n):
+                    if i in exp:
+                        if m[i] or int(r.data[i]) != exp[i]:
+                            res["each_test_has_its_own_flags"] = False
+                    elif not m[i]:
+                        res["uncovered_rows_not_evaluated"] = False
+                for nm, off in (("data", 0.5), ("tinp", 100.0), ("zinp", 200.0), ("lat", 300.0), ("lon", 400.0)):
+                    a = np.ma.masked_array(getattr(cr, nm))
+                    am = np.ma.getmaskarray(a)
+                    if len(a) != n or any(am[i] or float(a.data[i]) != i + off for i in exp):
+                        res["axes_equal_source_on_covered_rows"] = False
+            else:
+                a = out["s"]["qartod"][name]
+                if len(a) != n:
+                    res["one_result_per_key"] = False
+                    continue
+                for i in range(n):
+                    if i in exp:
+                        if int(a[i]) != exp[i]:
+                            res["each_test_has_its_own_flags"] = False
+                    elif int(a[i]) != U:
+                        res["uncovered_rows_not_evaluated"] = False
+        return res
+
+    def post_global(self, e, res):
+        out = res.value
+        if isinstance(out, tuple) and out and out[0] == "concrete":
+            r = self._post_concrete(e, out[1])
+            return r if r is not None else {}
+        n = e.n
+        k = z3.Int("k!row")
+        cur().index_seeds.append(k)
+        inr = z3.And(k >= 0, k < alg.lift(n))
+        present = z3.Or(HAS(0), HAS(1))
+        cov = lambda q: z3.And(HAS(q), SUB(q, k))  # noqa: E731
+        covered_ = z3.Or(cov(0), cov(1))
+        if self.params["how"] == "list":
+            by = {}
+            for cr in out:
+                by.setdefault(cr.test if isinstance(cr.test, str) else str(cr.test), []).append(cr)
+            if not out:
+                return {"one_result_per_key": z3.Not(present)}
+            if sorted(by) != sorted(TESTS) or any(len(v) != 1 for v in by.values()):
+                return {"one_result_per_key": False}
+            own, unc, axes, shape = [], [], [], [present]
+            for t, name in enumerate(TESTS):
+                cr = by[name][0]
+                r = cr.results
+                if not isinstance(r, MArr):
+                    return {"one_result_per_key": False}
+                shape.append(alg.eq(r.n, n))
+                for q in range(self.NCTX):
+                    own.append(z3.Implies(cov(q), alg.lift(alg.and_(alg.not_(r.m(k)), alg.eq(r._data.val(k), FLG2(q, t, k))))))
+                unc.append(z3.Implies(z3.Not(covered_), alg.lift(r.m(k))))
+                for nm in ("data", "tinp", "zinp", "lat", "lon"):
+                    a = getattr(cr, nm)
+                    if isinstance(a, MArr):
+                        axes.append(z3.Implies(covered_, alg.lift(alg.and_(alg.not_(a.m(k)), alg.eq(a._data.val(k), COLS[nm](k))))))
+                    elif isinstance(a, Selection):
+                        axes.append(alg.lift(alg.and_(a.sel(k)[1], alg.eq(a.base_elem(k)[1], COLS[nm](k)))))
+                    elif isinstance(a, Arr):
+                        axes.append(alg.lift(alg.eq(a.val(k), COLS[nm](k))))
+                    else:
+                        axes.append(False)
+            return {
+                "one_result_per_key": alg.and_(*shape),
+                "each_test_has_its_own_flags": z3.Implies(inr, z3.And(*[alg.lift(x) for x in own])),
+                "uncovered_rows_not_evaluated": z3.Implies(inr, z3.And(*[alg.lift(x) for x in unc])),
+                "axes_equal_source_on_covered_rows": z3.Implies(inr, z3.And(*[alg.lift(x) for x in axes])),
+            }
+        d = dict(out).get("s", {})
+        d = dict(d).get("qartod", {})
+        if not d:
+            return {"one_result_per_key": z3.Not(present)}
+        if sorted(d) != sorted(TESTS) or len(out) != 1 or len(out["s"]) != 1:
+            return {"one_result_per_key": False}
+        own, unc, shape = [], [], [present]
+        for t, name in enumerate(TESTS):
+            a = d[name]
+            data, hidden = (a._data, a.m(k)) if isinstance(a, MArr) else (a, False)
+            shape.append(alg.eq(a.n, n))
+            for q in range(self.NCTX):
+                own.append(z3.Implies(cov(q), alg.lift(alg.and_(alg.not_(hidden), alg.eq(data.val(k), FLG2(q, t, k))))))
+            unc.append(z3.Implies(z3.Not(covered_), alg.lift(alg.and_(alg.not_(hidden), alg.eq(data.val(k), U)))))
+        return {
+            "one_result_per_key": alg.and_(*shape),
+            "each_test_has_its_own_flags": z3.Implies(inr, z3.And(*[alg.lift(x) for x in own])),
+            "uncovered_rows_not_evaluated": z3.Implies(inr, z3.And(*[alg.lift(x) for x in unc])),
+        }
 
 
 class KeyLemmas(Case):
@@ -471,5 +715,5 @@ class KeyLemmas(Case):
         return [("hash_key_injective", asm, z3.And(s1 == s2, p1 == p2, t1 == t2))]
 
 
-def cases():  # noqa: F811
-    return [Collect(how="list", axes="present"), Collect(how="dict", axes="present"), Collect(how="list", axes="absent"), Collect(how="dict", axes="absent"), KeyLemmas()]
+def cases():
+    return [Collect(how="list", axes="present"), Collect(how="dict", axes="present"), Collect(how="list", axes="absent"), Collect(how="dict", axes="absent"), CollectMulti(how="list", tests=2), CollectMulti(how="dict", tests=2), KeyLemmas()]
